@@ -203,7 +203,7 @@ func (s *Sorts) zero(t types.Type) string {
 	case *types.Struct:
 		return s.zeroStruct(u)
 	case *types.Array:
-		return fmt.Sprintf("((as const %s) %s)", s.sortOf(u), s.zero(u.Elem()))
+		return fmt.Sprintf("((as const %s) %s)", s.sortOf(u), constTerm(s.zero(u.Elem())))
 	}
 	return "0"
 }
@@ -322,4 +322,11 @@ func isPointerLike(t types.Type) bool {
 		return true
 	}
 	return false
+}
+
+// constTerm expands defined constants, so that the term is a value in the
+// sense cvc5 requires for the argument of a constant array.
+func constTerm(z string) string {
+	z = strings.ReplaceAll(z, "nil_iface", "(mk_iface 0 0)")
+	return strings.ReplaceAll(z, "nil_slice", "(mk_slice 0 0 0 0)")
 }
